@@ -682,7 +682,26 @@ Proof.
   lia.
 Qed.
 
+(** canonicity read along view paths: every value-less node other than the root has two children *)
+Lemma canon_below_subtree pa : forall t : tree, canon_below t -> canon_below (subtree t pa).
+Proof.
+  induction pa as [|s pa IH]; intros t C; [destruct t; exact C|].
+  destruct t as [|i p v l r]; [exact I|]. cbn [subtree]. destruct C as [_ [Cl Cr]].
+  apply IH. destruct s; assumption.
+Qed.
+
+Theorem canonical_words (t : tree) : canonical t ->
+  forall pa i p l r, pa <> [] -> subtree t pa = Node i p None l r -> is_node l = true /\ is_node r = true.
+Proof.
+  intros C pa i p l r Hne Hs. destruct pa as [|s pa]; [congruence|].
+  destruct t as [|i0 p0 v0 l0 r0]; [destruct C|]. destruct C as [Cl Cr]. cbn [subtree] in Hs.
+  assert (Cc : canon_below (if s then r0 else l0)) by (destruct s; assumption).
+  pose proof (canon_below_subtree pa _ Cc) as Cs. rewrite Hs in Cs. destruct Cs as [Hv _].
+  apply Hv. reflexivity.
+Qed.
+
 End HX.
+
 
 Print Assumptions reachable_minv.
 Print Assumptions step_gap.
@@ -707,3 +726,4 @@ Print Assumptions no_growth_reuses.
 Print Assumptions canonical_empty_root.
 Print Assumptions canonical_nodes.
 Print Assumptions canon_churn_bound.
+Print Assumptions canonical_words.
